@@ -148,6 +148,7 @@ type Exec struct {
 	pcChecked     int
 	local         *localRun
 	initDone      bool
+	mergeDepth    int
 	pending       []pendingAssert
 	doneCh        chan pathEnd
 	expectBlockOK bool
